@@ -146,7 +146,10 @@ svx_read_header	(SF_PRIVATE *psf)
 	psf->sf.format = SF_FORMAT_SVX ;
 
 	while (! done)
-	{	psf_binheader_readf (psf, "Em4", &marker, &chunk_size) ;
+	{	if (psf_binheader_readf (psf, "Em4", &marker, &chunk_size) != 8)
+		{	psf_log_printf (psf, "*** Short read of chunk header at position %D. Exiting parser.\n", psf_ftell (psf)) ;
+			break ;
+			} ;
 
 		switch (marker)
 		{	case FORM_MARKER :
